@@ -109,6 +109,7 @@ fn main() {
         "run" => cactus::run_main(&args),
         "std" => stdrc::run_main(&args),
         "ring" => cactus::ring_main(&args),
+        "tree" => cactus::tree_main(&args),
         "glue" => {
             // the delegating API surface on cactusref and on std::rc, side by side
             let a = cactus::glue();
